@@ -94,6 +94,28 @@ def canon_place(B, pl, depth=0):
         projs = projs[2:]
         if not projs:
             return base
+    # see through literals: (Ok(x)?) is x, (a, b).1 is b, Some(x) as Some .0 is x - an inlined helper returns its values this way
+    for _ in range(6):
+        if not projs:
+            return base
+        if base[0] == 'payload' and isinstance(base[1], tuple) and base[1][0] == 'local':
+            d_ = B.single_def(base[1][1])
+            if d_ and d_[0] == 's' and d_[3]['rv']['k'] == 'agg' and d_[3]['rv'].get('var') in ('Ok', 'Some', 'Continue', 'Ready') and len(d_[3]['rv']['ops']) == 1:
+                base = canon(B, d_[3]['rv']['ops'][0], depth + 1)
+                continue
+        if base[0] == 'local':
+            d_ = B.single_def(base[1])
+            if d_ and d_[0] == 's' and d_[3]['rv']['k'] == 'agg':
+                rv_ = d_[3]['rv']
+                if rv_.get('ak') == 'tuple' and isinstance(projs[0], str) and projs[0].isdigit() and int(projs[0]) < len(rv_['ops']):
+                    base, projs = canon(B, rv_['ops'][int(projs[0])], depth + 1), projs[1:]
+                    continue
+                if rv_.get('ak') == 'adt' and isinstance(projs[0], str) and projs[0] == 'as:' + str(rv_.get('var')) and len(projs) > 1 and isinstance(projs[1], str) and projs[1] in (rv_.get('fn') or []):
+                    base, projs = canon(B, rv_['ops'][rv_['fn'].index(projs[1])], depth + 1), projs[2:]
+                    continue
+        break
+    if not projs:
+        return base
     if base[0] == 'place':
         res = ('place', base[1], base[2] + tuple(projs))
     else:
